@@ -4,6 +4,7 @@ import (
 	"bufio"
 	"bytes"
 	"encoding/json"
+	"errors"
 	"fmt"
 	"io"
 	"os"
@@ -243,8 +244,26 @@ func runC11(t *mon.T, raw json.RawMessage) {
 					{"bufio(16)", bufio.NewReaderSize(lab.OneByteReader{R: bytes.NewReader(buf.Bytes())}, 16)},
 					{"data+EOF", iotest.DataErrReader(bytes.NewReader(buf.Bytes()))},
 				}
-				k := kinds[(p/2)%len(kinds)]
+				var scratch *bytes.Buffer
+				kinds = append(kinds, struct {
+					name string
+					r    io.Reader
+				}{"bytes.Buffer that is reused afterwards", nil})
+				k := kinds[(p/2+int(d.Seed&7))%len(kinds)]
+				var backing []byte
+				if k.r == nil {
+					backing = append([]byte{}, buf.Bytes()...)
+					scratch = bytes.NewBuffer(backing)
+					k.r = scratch
+				}
 				back, err = index.ReadFrom(k.r)
+				if scratch != nil {
+					// the caller reuses its buffer (Reset + other content): the index read from it must own its memory
+					scratch.Reset()
+					for i := range backing {
+						backing[i] = 0xA5
+					}
+				}
 				t.Cover("readfrom-source:" + k.name)
 				if err != nil {
 					t.Violatef(name+"/ReadFrom("+k.name+")/error", "ReadFrom(%s reader) of the library's own serialization failed: %v", k.name, err)
@@ -308,6 +327,22 @@ func c11Session(t *mon.T, d c11Desc) {
 		t.Cover("big-sessions")
 	}
 	cfg := lab.Cfg{Sorted: r.Intn(2) == 0, StoreID: r.Intn(2) == 0, AllowDup: r.Intn(3) == 0, WholeCID: r.Intn(3) == 0, DataPad: uint64(r.Intn(3) * 17)}
+	if d.Big == 0 && len(content.Blocks) >= 2 && r.Intn(3) == 0 {
+		// one block whose CID is over a small MaxIndexCidSize sits in the middle of the put sequence
+		cfg.MaxCid = 48
+		i := 1 + r.Intn(len(content.Blocks)-1)
+		long := refcar.Block{Cid: refcar.MakeCidV1(0x55, 0x13, gen.Bytes(r, 64)), Data: []byte("refused")}
+		var kept []refcar.Block
+		for _, b := range content.Blocks {
+			if len(b.Cid) <= 48 {
+				kept = append(kept, b)
+			}
+		}
+		if i > len(kept) {
+			i = len(kept)
+		}
+		content.Blocks = append(append(append([]refcar.Block{}, kept[:i]...), long), kept[i:]...)
+	}
 	dir := lab.TempDir("c11")
 	defer os.RemoveAll(dir)
 	p := filepath.Join(dir, "s.car")
@@ -326,9 +361,27 @@ func c11Session(t *mon.T, d c11Desc) {
 	}
 	var batch []blocks.Block
 	flush := func() bool {
-		if err := bs.PutMany(bg, batch); err != nil {
-			t.Violatef("session/put/error", "PutMany: %v", err)
-			return false
+		for len(batch) > 0 {
+			err := bs.PutMany(bg, batch)
+			if err == nil {
+				break
+			}
+			// a block of the batch is refused (its CID is over MaxIndexCidSize): the blocks before it are
+			// stored, the caller carries on with the ones after it
+			var tl *carv2.ErrCidTooLarge
+			bad := -1
+			for i, b := range batch {
+				if uint64(len(b.Cid().Bytes())) > cfg.EffMaxCid() {
+					bad = i
+					break
+				}
+			}
+			if !errors.As(err, &tl) || bad < 0 {
+				t.Violatef("session/put/error", "PutMany: %v", err)
+				return false
+			}
+			t.Cover("sessions-with-a-batch-refused-midway")
+			batch = batch[bad+1:]
 		}
 		batch = nil
 		return true
@@ -354,6 +407,20 @@ func c11Session(t *mon.T, d c11Desc) {
 	}
 	if !flush() {
 		return
+	}
+	if ii, ok := bs.Index().(*index.InsertionIndex); ok && r.Intn(2) == 0 {
+		// the caller flattens the session's index itself, in the OTHER codec, before finalizing: each
+		// Flatten answers for the codec it was asked for
+		other := multicodec.CarIndexSorted
+		if cfg.Sorted {
+			other = multicodec.CarMultihashIndexSorted
+		}
+		if fl, err := ii.Flatten(other); err != nil {
+			t.Violatef("session/Flatten(other codec)/error", "%v", err)
+		} else if fl.Codec() != other {
+			t.Violatef("session/Flatten(other codec)/wrong-codec", "Flatten(%v) returned an index of codec %v", other, fl.Codec())
+		}
+		t.Cover("sessions-flattened-in-the-other-codec-first")
 	}
 	if err := bs.Finalize(); err != nil {
 		t.Violatef("session/finalize/error", "Finalize: %v", err)
@@ -392,6 +459,10 @@ func c11Session(t *mon.T, d c11Desc) {
 	flat, err := index.ReadFrom(bytes.NewReader(a.IndexBytes))
 	if err != nil {
 		t.Violatef("session/ReadFrom/error", "embedded (flattened) index unreadable: %v", err)
+		return
+	}
+	if flat.Codec() != codec {
+		t.Violatef("session/finalize/index-codec", "the finalized file carries an index of codec %v, the session was opened for %v", flat.Codec(), codec)
 		return
 	}
 	for _, s := range a.Payload.Sections {
@@ -437,6 +508,6 @@ func init() {
 		Assumptions: []string{"reference index parser/builder (refcar)", "order among entries sharing one digest is left open by the format and is canonicalised before comparison"},
 		Gen:         genC11,
 		Run:         runC11,
-		MinCover:    map[string]int{"multisets-with-repeated-digest": 20, "multisets-with-shared-digest-prefixes": 50, "sessions": 50, "sessions-without-repeated-digest": 10, "sessions-with-repeated-digest": 5, "big-sessions": 3, "multisets-with-more-than-64-widths": 20, "sessions-resumed-after-discard": 20, "sessions-resumed-after-finalize": 20},
+		MinCover:    map[string]int{"multisets-with-repeated-digest": 20, "multisets-with-shared-digest-prefixes": 50, "sessions": 50, "sessions-without-repeated-digest": 10, "sessions-with-repeated-digest": 5, "big-sessions": 3, "multisets-with-more-than-64-widths": 20, "sessions-with-a-batch-refused-midway": 20, "sessions-resumed-after-discard": 20, "sessions-resumed-after-finalize": 20},
 	})
 }
